@@ -8,10 +8,14 @@ Part D  watches: the store + the event publisher (FIFO publish channel drained b
 Part A  the sequential specification (`specStep`: `DB.writeCAS`, `DB.deleteCAS`, `DB.read`, …), which is
         also what a linearizable concurrent history is linearizable *to*
 Part B  the linearizability checker used on the recorded concurrent histories
+Part E  the resource service layer (`Write`, `WriteStatus`, `Delete` of agent/grpc-external/services/resource) on top
+        of the store: version CAS, uid carried over / minted, owner and status immutability under `Write`,
+        generation minted by `Write` only, stale lifetimes untouched, `retryCAS`
 -/
 import CV.Proofs.Res
 import CV.Proofs.ResProto
 import CV.Proofs.ResWatch
+import CV.Proofs.ResSvc
 namespace CV.Res
 open Lin
 
@@ -104,6 +108,143 @@ def exStale : List HCall := [.write (exRes [1] "9" 5) "2", .delete (exId [1]) "2
 example : StaleOn (idKey (exId [1])) [1] exStale := by simp only [exStale, StaleOn]; decide
 example : (trace [exRes [2] "2" 0] exStale).map (·.2.1) = [.w .wrongUid, .d true, .r .notFound] := by decide
 end examples
+
+
+/-! ## Part E — the resource service layer (model: CV.ResSvc) -/
+
+namespace Svc
+
+/-- **Update path of `Write`.** Whenever the backend read finds a stored resource `ex` (directly or inside a
+    GroupVersion mismatch) and the attempt gets as far as writing, what it hands to `Backend.WriteCAS`
+    * carries the *stored* id (so the uid of a live resource cannot change through `Write`) and presents the
+      stored version, which for a CAS call is the version the caller presented (**service-level version CAS**:
+      a caller version different from the one read ends the attempt with `ErrCASFailure` before anything is written);
+    * has the stored owner (**owner immutability**) and the stored status map (**`Write` never changes a status**);
+    * has the freshly minted generation;
+    and payload / other metadata are the caller's. Holds in every state, i.e. whatever other clients did before. -/
+theorem svc_write_update_laws (w : SW) (req : SRes) (h : Hints) (tmfd : Bool) (ex input : SRes)
+    (hex : (w.beRead req.r.id).stored? = some ex) (hp : writePlan w req h tmfd = .ok input) :
+    input.r.id = ex.r.id ∧ input.r.version = ex.r.version ∧ (req.r.version = "" ∨ req.r.version = ex.r.version) ∧
+    input.r.owner = ex.r.owner ∧ input.x.status = ex.x.status ∧ input.x.gen = h.gen ∧
+    (req.r.version ≠ "" → input.x.delTs = req.x.delTs ∧ input.x.fins = req.x.fins) ∧
+    input.r.data = req.r.data ∧ input.x.other = req.x.other :=
+  updatePlan_laws w req h tmfd ex input hex hp
+
+/-- **Create path of `Write`.** When the backend read finds nothing, the resource handed to `WriteCAS` has the
+    caller's name with a *minted* uid (never the caller's), no status, no deletion timestamp, the minted
+    generation, and presents the caller's version — so with a non-empty version the backend rejects it
+    (`DB.writeCAS`: absent ∧ version ≠ "" ⇒ CAS failure). -/
+theorem svc_write_create_laws (w : SW) (req : SRes) (h : Hints) (tmfd : Bool) (input : SRes)
+    (hnf : w.beRead req.r.id = .notFound) (hp : writePlan w req h tmfd = .ok input) :
+    input.r.id = { req.r.id with uid := h.uid } ∧ input.r.version = req.r.version ∧ input.x.status = [] ∧
+    input.x.gen = h.gen ∧ input.x.delTs = none ∧ tmfd = false ∧ input.r.data = req.r.data :=
+  createPlan_laws w req h tmfd input hnf hp
+
+/-- **A stale writer cannot touch a re-created resource (service layer).** A `Write` that names the uid of another
+    lifetime than the stored one is rejected and store and side table are exactly what they were — for CAS and
+    non-CAS calls, any GroupVersion, any presented version. (No interference during the call; the minted uid is
+    not the stored one — `ulid.Make()` is fresh.) -/
+theorem svc_stale_write_untouched (w : SW) (req : SRes) (h : Hints) (tmfd : Bool) (cur : Res)
+    (hl : lookup (idKey (defaultId req.r.id)) w.db.rows = some cur)
+    (hne : req.r.id.uid ≠ []) (hu : cur.id.uid ≠ req.r.id.uid) (hfresh : cur.id.uid ≠ h.uid) :
+    (w.svcWrite [] req h tmfd).1.db = w.db ∧ (w.svcWrite [] req h tmfd).1.ext = w.ext ∧
+    ∃ e, (w.svcWrite [] req h tmfd).2.2 = .error e ∧ e ≠ .aborted :=
+  stale_write_untouched w req h tmfd cur hl hne hu hfresh
+
+/-- … a stale `Delete` is a no-op that reports success (idempotent delete), no tombstone is written … -/
+theorem svc_stale_delete_noop (w : SW) (id : RID) (vsn : String) (h : Hints) (tmfd : Bool) (cur : Res)
+    (hl : lookup (idKey (defaultId id)) w.db.rows = some cur) (hne : id.uid ≠ []) (hu : cur.id.uid ≠ id.uid) :
+    w.svcDelete [] id vsn h tmfd = (w, [], .ok ()) :=
+  stale_delete_noop w id vsn h tmfd cur hl hne hu
+
+/-- … and a stale `WriteStatus` is answered NotFound, nothing changes. -/
+theorem svc_stale_status_rejected (w : SW) (id : RID) (key : String) (st : SStat) (vsn : String) (h : Hints) (cur : Res)
+    (hl : lookup (idKey (defaultId id)) w.db.rows = some cur) (hne : id.uid ≠ []) (hu : cur.id.uid ≠ id.uid) :
+    w.svcWriteStatus [] id key st vsn h = (w, [], .error .notFound) :=
+  stale_status_rejected w id key st vsn h cur hl hne hu
+
+/-- **Status writes.** A successful `WriteStatus` attempt stores the resource it read with exactly one status key
+    replaced (stamped with the current time): id (uid), owner, payload, metadata and — unlike `Write` — the
+    *generation* are unchanged; with a non-empty version it commits only on that version. -/
+theorem svc_status_write_laws (w : SW) (id : RID) (key : String) (st : SStat) (vsn : String) (h : Hints)
+    (w' : SW) (s' : Sched) (stored : SRes) (hr : statusAttempt w [] id key st vsn h = (w', s', .ok stored)) :
+    ∃ r, w.beRead id = .found r ∧ (vsn = "" ∨ vsn = r.r.version) ∧ stored.r.id = r.r.id ∧ stored.r.owner = r.r.owner ∧
+      stored.r.data = r.r.data ∧ stored.x.gen = r.x.gen ∧ stored.x.delTs = r.x.delTs ∧ stored.x.fins = r.x.fins ∧
+      stored.x.other = r.x.other ∧ stored.x.tomb = r.x.tomb ∧
+      stored.x.status = setStatus key { st with upd := h.upd } r.x.status :=
+  status_write_laws w id key st vsn h w' s' stored hr
+
+/-- **`retryCAS`** retries nothing but `ErrCASFailure`: any other outcome of an attempt (success, ErrWrongUid, a
+    validation error, a gRPC status from a nested call) is the outcome of the call; and a CAS call (non-empty
+    version) makes exactly one attempt. -/
+theorem svc_retry_only_cas_failure {α : Type} (attempt : SW → Sched → Att α) (n : Nat) (w : SW) (s : Sched)
+    (h : (attempt w s).2.2 ≠ .error .aborted) : retry attempt n w s = attempt w s :=
+  retry_stops attempt n w s h
+
+theorem svc_cas_call_single_attempt {α : Type} (attempt : SW → Sched → Att α) (vsn : String) (hv : vsn ≠ "")
+    (w : SW) (s : Sched) : retry attempt (retries vsn) w s = attempt w s := by
+  simp [retries, hv, retry]
+
+/-- **CAS delete — partial.** If the caller names a uid or presents no version (i.e. except for a by-name delete
+    that presents a version), `Delete` is either a non-CAS delete or hands the caller's own (id, version) to
+    `DeleteCAS`, which the store honours: another version than the stored one removes nothing and fails, another
+    uid is a no-op. -/
+theorem svc_delete_cas_partial (id : RID) (vsn : String) (ex : SRes) (hyp : id.uid ≠ [] ∨ vsn = "") :
+    vsn = "" ∨ (deleteTarget id vsn ex = (id, vsn) ∧
+      ∀ (w : SW) (cur : Res), lookup (idKey id) w.db.rows = some cur → (vsn ≠ cur.version ∨ cur.id.uid ≠ id.uid) →
+        (w.beDelete id vsn).1 = w) := by
+  by_cases hv : vsn = ""
+  · exact Or.inl hv
+  · right
+    have hu : id.uid ≠ [] := by rcases hyp with h | h; exact h; exact absurd h hv
+    refine ⟨by simp [deleteTarget, hv, hu], ?_⟩
+    intro w cur hl hc
+    by_cases huid : id.uid = cur.id.uid
+    · have hvv : vsn ≠ cur.version := by
+        rcases hc with h | h
+        · exact h
+        · exact absurd huid.symm h
+      simp [SW.beDelete, DB.deleteCAS, hl, huid, hvv]
+    · simp [SW.beDelete, DB.deleteCAS, hl, huid]
+
+section svcExamples
+def sId (uid : Bytes) : RID := ⟨⟨[100], [118, 50], [65, 114, 116, 105, 115, 116]⟩, ⟨[100], [100]⟩, [97], uid⟩
+def sHints : Hints := ⟨[85, 57], "G9", [85, 56], "G8", "T1", "NOW"⟩
+/-- artist `a`, uid U1, at version "2" (two writes so far) -/
+def sW2 : SW := { db := { rows := [⟨sId [85, 49], none, "2", 4⟩], evIdx := 4 }, ext := [(idKey (sId []), { gen := "G2" })], ctr := 2 }
+
+/-- **The excluded case is real (known finding `svc:delete-by-name-ignores-version`).** A `Delete` by name (empty
+    uid) presenting the stale version "1" while version "2" is stored succeeds and removes the resource: the
+    presented version is replaced by the stored one. (A tombstone for the exact lifetime is left behind.) -/
+theorem svc_delete_by_name_ignores_version_counterexample :
+    (sW2.svcDelete [] (sId []) "1" sHints false).2.2 = .ok () ∧
+    lookup (idKey (sId [])) (sW2.svcDelete [] (sId []) "1" sHints false).1.db.rows = none ∧
+    deleteTarget (sId []) "1" (sW2.full ⟨sId [85, 49], none, "2", 4⟩) = (sId [85, 49], "2") := by
+  refine ⟨by decide, by decide, by decide⟩
+
+/-- with the uid presented the same stale delete is refused (and retried by nobody: it is a CAS call) -/
+example : (sW2.svcDelete [] (sId [85, 49]) "1" sHints false).2.2 = .error .aborted ∧
+    lookup (idKey (sId [])) (sW2.svcDelete [] (sId [85, 49]) "1" sHints false).1.db.rows = some ⟨sId [85, 49], none, "2", 4⟩ := by
+  refine ⟨by decide, by decide⟩
+
+/-- non-vacuity of the update / create laws: a non-CAS write by name on `sW2` plans the stored id and version,
+    on the empty store it plans a minted uid -/
+example : (writePlan sW2 ⟨⟨sId [], none, "", 8⟩, {}⟩ sHints false).toOption.map (fun i => (i.r.id.uid, i.r.version, i.x.gen)) =
+    some ([85, 49], "2", "G9") := by decide
+example : (writePlan SW.init ⟨⟨sId [], none, "", 8⟩, {}⟩ sHints false).toOption.map (fun i => (i.r.id.uid, i.r.version, i.x.gen)) =
+    some ([85, 57], "", "G9") := by decide
+/-- a stale writer (uid U7) on `sW2`: rejected with ErrWrongUid -/
+example : (sW2.svcWrite [] ⟨⟨sId [85, 55], none, "", 8⟩, {}⟩ sHints false).2.2 = .error .wrongUid := by decide
+/-- a status write on `sW2` keeps the generation "G2" and bumps only the version -/
+example : (statusAttempt sW2 [] (sId [85, 49]) "k" ⟨"G2", 1, ""⟩ "" sHints).2.2.toOption.map (fun r => (r.x.gen, r.r.version, r.x.status)) =
+    some ("G2", "3", [("k", ⟨"G2", 1, "T1"⟩)]) := by decide
+/-- a foreign commit between read and write makes a non-CAS `Write` retry and then succeed on the new version;
+    the same interference makes a CAS `Write` fail with Aborted -/
+example : (sW2.svcWrite [[.write ⟨⟨sId [85, 49], none, "2", 12⟩, {}⟩]] ⟨⟨sId [], none, "", 8⟩, {}⟩ sHints false).2.2.toOption.map (·.r.version) = some "5" := by decide
+example : (sW2.svcWrite [[.write ⟨⟨sId [85, 49], none, "2", 12⟩, {}⟩]] ⟨⟨sId [], none, "2", 8⟩, {}⟩ sHints false).2.2 = .error .aborted := by decide
+end svcExamples
+
+end Svc
 
 /-! ## Part B — the linearizability checker -/
 
